@@ -367,6 +367,99 @@ def real_transports(ck, tier):
                 ck.fail("frames-interleaved-on-the-wire:real-" + kind, {"kind": kind, "decoded": len(got), "tail": repr(got[-2:])})
 
 
+W_ACK = """
+import zlib
+while 1:
+    x = channel.receive()
+    if x is None:
+        break
+    channel.send((len(x), zlib.crc32(x)))
+"""
+
+W_FLOOD = """
+import threading
+n, size = channel.receive()
+chans = [channel.receive() for i in range(n)]
+def run(i, c):
+    for j in range(3):
+        c.send(bytes([i * 16 + j]) * size)
+    c.send(None)
+ths = [threading.Thread(target=run, args=(i, c)) for i, c in enumerate(chans)]
+[t.start() for t in ths]
+[t.join() for t in ths]
+"""
+
+
+def real_gateways(ck, tier):
+    """real gateways (popen, and a socket one installed through it): several OS threads send frames far larger than a pipe
+    buffer at the same time on one connection, initiator -> worker and worker -> initiator; every item must arrive intact on
+    its own channel and the gateway must survive"""
+    import threading
+    import zlib
+
+    import execnet
+    from props import xport as X
+
+    sizes = [300000, 2 << 20] if tier == "quick" else [70000, 300000, 2 << 20, 5 << 20]
+    group = execnet.Group()
+    try:
+        gws = [("popen", group.makegateway("popen//id=c08p"))]
+        try:
+            gws.append(("socket", group.makegateway("socket//installvia=c08p//id=c08s")))
+        except Exception as e:  # noqa
+            ck.count("real_gateway_socket_unavailable")
+        for kind, gw in gws:
+            for size in sizes:
+                nthr = 4
+                bad = []
+
+                def up(t):
+                    try:
+                        ch = gw.remote_exec(W_ACK)
+                        for j in range(3):
+                            data = bytes([t * 16 + j]) * size
+                            ch.send(data)
+                            if ch.receive(60) != (len(data), zlib.crc32(data)):
+                                bad.append(("up-ack-differs", t, j))
+                        ch.send(None)
+                        ch.waitclose(60)
+                    except Exception as e:  # noqa
+                        bad.append(("up", t, type(e).__name__, str(e)[:80]))
+
+                ths = [threading.Thread(target=up, args=(t,), daemon=True) for t in range(nthr)]
+                [t.start() for t in ths]
+                [t.join(120) for t in ths]
+                if any(t.is_alive() for t in ths):
+                    bad.append(("up-senders-blocked",))
+
+                def down():
+                    ch = gw.remote_exec(W_FLOOD)
+                    ch.send((nthr, size))
+                    cs = [gw.newchannel() for _ in range(nthr)]
+                    for c in cs:
+                        ch.send(c)
+                    for i, c in enumerate(cs):
+                        for j in range(3):
+                            x = c.receive(60)
+                            if x != bytes([i * 16 + j]) * size:
+                                bad.append(("down-item-differs", i, j, len(x) if isinstance(x, bytes) else repr(x)[:40]))
+                        if c.receive(60) is not None:
+                            bad.append(("down-end-differs", i))
+                    ch.waitclose(60)
+
+                if not bad:
+                    st, val = X.with_timeout(down, 150)
+                    if st != "ok":
+                        bad.append(("down", st, repr(val)[:120]))
+                ck.case(("real-gateway", kind, size))
+                ck.count("real_gateway_runs_" + kind)
+                if bad:
+                    ck.fail("frames-interleaved-on-the-wire:real-%s-gateway" % kind, {"kind": kind, "size": size, "threads": nthr, "observed": [list(map(str, b)) for b in bad[:4]]})
+                    break
+    finally:
+        X.with_timeout(lambda: group.terminate(timeout=2.0), 30)
+
+
 def main(tier, seed, replay=None):
     ck = Check("C08", tier, seed)
     ck.assumptions += [
@@ -381,4 +474,6 @@ def main(tier, seed, replay=None):
     interleave(ck, ok, tier, replay)
     if tier == "thorough" and not replay:
         real_transports(ck, tier)
+    if not replay or (replay.get("signature") or "").endswith("-gateway"):
+        real_gateways(ck, tier)
     return ck.finish(rule="generated message lists (all type bytes, ids over the signed 32-bit range incl. extremes, payloads 0..300 bytes and 64 KiB boundary sizes) x cut offsets x read-chunk oracles x {Popen2IO, SocketIO} read loops, plus every cut offset x uniform chunk size for two fixed streams; malformed streams with adversarial length fields; 2-4 concurrent senders through the real BaseGateway._send under the scheduler on buffered-file and piecewise-sendall transports. distinct = distinct (messages, cut, chunking, io) / (io, seed); non-trivial = at least one message.")
